@@ -24,7 +24,7 @@ RULE = (
     "integer/float/text header values, float and text curves, NaN cells, duplicated and blank mnemonics, header-only, object-dtype curves holding NaN next to text (set_data / set_data_from_df with a text column); "
     "JSON decoded by json.loads with parse_constant raising; CSV for the full product mnemonics {True, False, list} x "
     "units {True, False, list} x units_loc {line, [], (), None} x lineterminator x delimiter decoded by csv.reader; "
-    "Excel decoded by openpyxl; df()/set_data_from_df; every view produced again after in-place edits of the float curves; depth views for every member of DEPTH_UNITS in upper/lower/title "
+    "Excel decoded by openpyxl; df()/set_data_from_df; the JSON / df / sequence / Excel views and five csv option points additionally on every object read from the shared input families (example corpus, generated files and mutations, version shapes); every view produced again after in-place edits of the float curves; depth views for every member of DEPTH_UNITS in upper/lower/title "
     "case on STRT, STOP, STEP, curve 0 individually and jointly, all conflicting pairs, non-members, forced index_unit; "
     "non-trivial = export of an object with >= 1 curve, or a unit case other than the table's own spelling"
 )
@@ -88,7 +88,32 @@ def objects():
     ]
 
 
-OBJ = dict(objects())
+class _Objects(dict):
+    """Named object constructors; names 'in:<tier>:<i>' are inputs of the shared families (example corpus, generated
+    files and their mutations, version shapes) read with the default options."""
+
+    def __missing__(self, name):
+        if not name.startswith("in:"):
+            raise KeyError(name)
+        _, tier, i = name.split(":")
+        text = _file_inputs(tier)[int(i)][1]
+        return lambda: lasio.read(text)
+
+
+_FI = {}
+
+
+def _file_inputs(tier):
+    if tier not in _FI:
+        from ..core import inputs
+        _FI[tier] = [(n, t) for n, t in inputs.all_inputs(tier) if t.count("\n") <= (400 if tier == "quick" else 3000)]
+    return _FI[tier]
+
+
+OBJ = _Objects(objects())
+# csv option points explored on every input-derived object (the full 144-option product stays on the hand-made objects)
+CSV_FILE_COMBOS = [[True, True, "line", None, None], [True, True, "[]", None, None], [False, False, None, "\r\n", ";"],
+                   ["list", "list", "()", None, None], [True, False, "line", None, ";"]]
 CSV_AXES = [
     ("mnemonics", [True, False, "list"]), ("units", [True, False, "list"]), ("units_loc", ["line", "[]", "()", None]),
     ("lineterminator", [None, "\r\n"]), ("delimiter", [None, ";"]),
@@ -134,6 +159,15 @@ def points(tier):
         pts.append(["df", name])
         for combo in itertools.product(*[v for _, v in CSV_AXES]):
             pts.append(["csv", name, list(combo)])
+    for i, (iname, text) in enumerate(_file_inputs(tier)):
+        name = "in:%s:%d" % (tier, i)
+        pts.append(["json", name])
+        pts.append(["df", name])
+        pts.append(["sequence", name])
+        for combo in CSV_FILE_COMBOS:
+            pts.append(["csv", name, list(combo)])
+        if tier == "thorough" or text.count("\n") <= 120:
+            pts.append(["excel", name])
     cases = depth_cases()
     for i in range(0, len(cases), 25):
         pts.append(["depth", i, min(i + 25, len(cases))])
@@ -152,7 +186,11 @@ def _isnan(v):
 
 
 def V(clause, pt, expected, observed, sig=None):
-    return {"clause": clause, "sig": sig or "%s:%s" % (pt[0], pt[1]), "witness": {"point": pt}, "expected": expected, "observed": observed,
+    objname = pt[1]
+    if isinstance(objname, str) and objname.startswith("in:"):
+        _, tier, i = objname.split(":")
+        objname = "in:" + _file_inputs(tier)[int(i)][0].split(":")[0]   # family name (corpus / gen / mut / versions / ...)
+    return {"clause": clause, "sig": sig or "%s:%s" % (pt[0], objname), "witness": {"point": pt}, "expected": expected, "observed": observed,
             "size": len(repr(pt)), "repro": "see replay; object '%s' of lasiomc.checks.c18.objects()" % (pt[1],)}
 
 
@@ -381,7 +419,8 @@ def check_df(pt):
                 vio.append(V("df-restore-values", pt, [a.tolist() for a in vals_before], [np.asarray(c.data).tolist() for c in las.curves]))
             fresh = lasio.LASFile()
             fresh.set_data_from_df(df)
-            if fresh.keys() != keys_before or any(not _same(a, c.data) for a, c in zip(vals_before, fresh.curves)):
+            # (a frame without rows creates no curves in a fresh object - set_data skips empty data by design)
+            if len(df) and (fresh.keys() != keys_before or any(not _same(a, c.data) for a, c in zip(vals_before, fresh.curves))):
                 vio.append(V("df-restore-fresh", pt, keys_before, fresh.keys()))
         except Exception as e:
             vio.append(V("df-restore-raises", pt, "set_data_from_df(df()) succeeds", "%s: %s" % (type(e).__name__, str(e)[:160])))
@@ -552,6 +591,11 @@ def _num_equal(field, x):
 def check_point(pt):
     kind = pt[0]
     if kind == "sequence":
+        if pt[1].startswith("in:"):
+            try:
+                OBJ[pt[1]]()
+            except Exception:
+                return [], None, "skipped:input-does-not-read", {"skipped": 1}, 1
         vio = check_sequence(pt)
         return e1.compress(vio), (repr(pt), 1), kind, {}, 3
     if kind == "depth1":
@@ -564,6 +608,11 @@ def check_point(pt):
         vio, n, nt = check_depth(pt)
         return e1.compress(vio), (repr(pt), nt), kind, {"depth_cases": n}, n
     fn = {"json": check_json, "csv": check_csv, "excel": check_excel, "df": check_df}[kind]
+    if pt[1].startswith("in:"):
+        try:
+            OBJ[pt[1]]()
+        except Exception:
+            return [], None, "skipped:input-does-not-read", {"skipped": 1}, 1
     vio = fn(pt)
     nontriv = len(OBJ[pt[1]]().curves) > 0
     return e1.compress(vio), ((repr(pt), 1) if nontriv else None), kind, {}, 1
